@@ -37,6 +37,38 @@ build_mc() {
   echo "BUILD-ERROR: harness does not compile:"; cat "$BUILD/build2.err"; return 2
 }
 
+# build_sched: engine S. Regenerates the instrumented copy of package mast from the
+# current sources, then builds the scheduler-enabled binary. Returns non-zero (and
+# says why) if the sources contain a concurrency construct the instrumenter does
+# not model or the result does not compile; callers then fall back to the plain binary.
+build_sched() {
+  gen_overlay
+  cd "$HERE/harness" || return 2
+  go build -o "$BUILD/instr" ./cmd/instr 2> "$BUILD/instr.err" || { echo "NOTE: instrumenter does not build:"; head -5 "$BUILD/instr.err"; return 1; }
+  rm -rf "$BUILD/instr-out"; mkdir -p "$BUILD/instr-out"
+  if ! "$BUILD/instr" "$REPO" "$BUILD/instr-out" "$HERE/overlay/verifrt" "$BUILD/overlay.json" > "$BUILD/overlay-sched.json" 2> "$BUILD/instr.log"; then
+    echo "NOTE: instrumentation refused the current sources: $(grep INSTR-ERROR "$BUILD/instr.log")"; return 1
+  fi
+  if ! go build -overlay "$BUILD/overlay-sched.json" -tags "verif sched" -o "$BUILD/mc-sched" ./cmd/mc 2> "$BUILD/sched.err"; then
+    echo "NOTE: instrumented build failed:"; head -5 "$BUILD/sched.err"; return 1
+  fi
+  return 0
+}
+
+# build_race: the plain harness (unmodified package mast + dump hook) with the Go race
+# detector, for the free-running pass of C11.
+build_race() {
+  gen_overlay
+  cd "$HERE/harness" || return 2
+  go build -race -overlay "$BUILD/overlay.json" -tags verif -o "$BUILD/mc-race" ./cmd/mc 2> "$BUILD/race.err" || { echo "NOTE: race-enabled build failed:"; head -3 "$BUILD/race.err"; rm -f "$BUILD/mc-race"; return 1; }
+}
+
+# conformance of the instrumenter: with the pass-through runtime the instrumented
+# package must pass the repository's own root-package tests.
+sched_conformance() {
+  ( cd "$REPO" && go test -overlay "$BUILD/overlay-sched.json" -tags verif -vet=off -count=1 . ) > "$BUILD/conformance.log" 2>&1
+}
+
 # run_guarded <id> <cmd...>: runs a check; if the exploring process itself dies
 # (Go runtime "fatal error", an unrecovered panic in a goroutine the harness does
 # not own, a signal) the crash is reported as a violation of the property whose
@@ -69,11 +101,31 @@ PY
 case "${1:-}" in
   setup)
     build_mc || exit 2
+    if build_sched; then
+      if sched_conformance; then echo "engine S: instrumented package passes the repository's tests in pass-through mode"; else echo "WARNING: instrumented package fails the repository's tests (see $BUILD/conformance.log)"; fi
+    fi
+    build_race && echo "race-enabled binary built"
     echo "setup ok"
     ;;
   replay)
     build_mc || exit 2
     exec "$BUILD/mc" replay "$2"
+    ;;
+  C03|C11)
+    build_mc || exit 2
+    export VERIF_TIER="${2:-quick}"
+    if [ "$1" = C11 ]; then build_race; fi
+    if build_sched; then
+      if [ "$VERIF_TIER" = thorough ] && ! sched_conformance; then
+        echo "NOTE: instrumented package fails the repository's own tests in pass-through mode; engine S not used"
+        export VERIF_NO_SCHED=1
+        run_guarded "$1" "$BUILD/mc" "$1"
+      fi
+      run_guarded "$1" "$BUILD/mc-sched" "$1"
+    else
+      export VERIF_NO_SCHED=1
+      run_guarded "$1" "$BUILD/mc" "$1"
+    fi
     ;;
   C[0-9][0-9])
     build_mc || exit 2
